@@ -546,6 +546,9 @@ def led__value_comparison_operators(self: XPathToken, left: XPathToken) -> XPath
 def evaluate__value_comparison_operators(self: XPathToken, context: ta.ContextType = None) \
         -> ta.OneOrEmpty[bool]:
     operands = [self[0].get_atomized_operand(context), self[1].get_atomized_operand(context)]
+    if context is not None and context.timezone is not None:
+        # date/time values without timezone get the implicit timezone of the dynamic context
+        operands = [self.implicit_timezone_value(x, context) for x in operands]
 
     if any(x is None for x in operands):
         return []
